@@ -46,7 +46,8 @@ PROPS = {
         lean=["LP.Props.C03base", "LP.Props.C03final", "LP.Props.C01reach", "LP.Props.C01reachV2"],
         profiles=[("life", ALL_VARIANTS), ("fy", ["base", "guarV2"]), ("chunks", GUAR)],
         R={"ret": {"select", "distribute", "secondary"}},
-        D={"nrw": SELECT_EPS, "status": SELECT_EPS, "cpay": SELECT_EPS, "last": SELECT_EPS, "addr.win": SELECT_EPS},
+        D={"nrw": SELECT_EPS, "status": SELECT_EPS, "cpay": SELECT_EPS, "last": SELECT_EPS, "addr.win": SELECT_EPS,
+           "views": ANY},
     ),
     "C04": dict(
         title="Interrupted operations resume to the same result",
@@ -68,7 +69,7 @@ PROPS = {
         lean=["LP.Props.C06gates", "LP.Props.C06stage", "LP.Props.C06run"],
         profiles=[("timeline", ALL_VARIANTS), ("life", ALL_VARIANTS), ("deploy", ALL_VARIANTS)],
         R={"st": [(ANY, STAGE_MSGS), ({"deploy"}, None)]},
-        D={"cfg": ANY},
+        D={"cfg": ANY, "views": ANY},
     ),
     "C07": dict(
         title="Confirmation: exact payment, within allocation",
@@ -150,14 +151,14 @@ PROPS = {
         lean=["LP.Props.C17"],
         profiles=[("timeline", ALL_VARIANTS), ("life", ALL_VARIANTS), ("deploy", ALL_VARIANTS)],
         R={"st": ({"deploy", "setTicketPrice", "setPerTicket", "setNftCost", "setSchedule1", "setSchedule2"}, None)},
-        D={"price": ANY, "per": ANY, "cost": ANY, "sched": ANY},
+        D={"price": ANY, "per": ANY, "cost": ANY, "sched": ANY, "views": ANY},
     ),
     "C18": dict(
         title="Allocation",
         lean=["LP.Props.C18"],
         profiles=[("alloc", ALL_VARIANTS), ("life", ALL_VARIANTS)],
         R={"st": (ALLOC_EPS, None), "ev": {"addTicketsV2"}},
-        D={k: ALLOC_EPS for k in ["addr.range", "addr.tix", "last", "batch", "addr.uts"]},
+        D={k: ALLOC_EPS for k in ["addr.range", "addr.tix", "last", "batch", "addr.uts", "addr.utsview"]},
     ),
     "C19": dict(
         title="Pause",
